@@ -28,7 +28,7 @@ def repo_hash():
     for root, _, files in os.walk(os.path.join(REPO, 'src')):
         for f in files:
             paths.append(os.path.join(root, f))
-    paths += [os.path.join(REPO, 'Cargo.toml'), os.path.join(REPO, 'Cargo.lock')]
+    paths += [os.path.join(REPO, 'Cargo.toml'), lockfile()]
     for p in sorted(paths):
         h.update(p.encode())
         with open(p, 'rb') as fh:
